@@ -168,3 +168,50 @@ func (o *c19ExtOracle) After(w *World, ev *Event, res Result) *Violation {
 	}
 	return nil
 }
+
+// c10LendCustody (lend runs of C10): "no unaccounted remainder stays in auction custody". The lend scenario has dutch
+// auctions only, so after every event the auctionsV2 account must hold exactly, per denomination, the unsold collateral
+// of the live auctions plus the debt their bidders have paid so far (target debt minus outstanding debt).
+type c10LendCustody struct{}
+
+func (o *c10LendCustody) ID() string                  { return "c10.custody" }
+func (o *c10LendCustody) Before(w *World, ev *Event) {}
+func (o *c10LendCustody) After(w *World, ev *Event, res Result) *Violation {
+	ctx := w.Ctx()
+	claims := sdk.Coins{}
+	for _, a := range w.App.NewaucKeeper.GetAuctions(ctx) {
+		if !a.AuctionType {
+			return nil // an English auction: not modelled here
+		}
+		if a.CollateralToken.IsPositive() {
+			claims = claims.Add(a.CollateralToken)
+		}
+		if lv, ok := w.App.NewliqKeeper.GetLockedVault(ctx, a.AppId, a.LockedVaultId); ok {
+			if c := lv.TargetDebt.Amount.Sub(a.DebtToken.Amount); c.IsPositive() {
+				claims = claims.Add(sdk.NewCoin(a.DebtToken.Denom, c))
+			}
+		}
+	}
+	mod := w.ModAddr("auctionsV2")
+	bal := w.App.BankKeeper.GetAllBalances(ctx, mod)
+	for _, c := range bal {
+		have := c.Amount.Sub(w.UnsolicitedAmt(mod, c.Denom))
+		want := claims.AmountOf(c.Denom)
+		if !have.Equal(want) {
+			sig := "more"
+			if have.LT(want) {
+				sig = "less"
+			}
+			return &Violation{Property: "C10", OracleID: "c10.custody", Signature: "custody!=claims:" + sig + ctxTag(ev),
+				Detail: fmt.Sprintf("auctionsV2 account holds %s %s (net of unsolicited) after %s, live dutch auctions account for %s (unsold collateral + debt paid so far)", have, c.Denom, ev.Tag, want)}
+		}
+	}
+	for _, c := range claims {
+		if bal.AmountOf(c.Denom).IsZero() {
+			return &Violation{Property: "C10", OracleID: "c10.custody", Signature: "custody!=claims:less" + ctxTag(ev),
+				Detail: fmt.Sprintf("auctionsV2 account holds no %s after %s, live dutch auctions account for %s", c.Denom, ev.Tag, c.Amount)}
+		}
+	}
+	w.Stats.Probe("c10.lend_custody_checked")
+	return nil
+}
